@@ -514,10 +514,52 @@ def r12_7(ctx):
                     return lo, hi, r2[0]
         return None
 
+    def clamp_by_paths(fn):
+        """(0.0, 100.0, x) when every return of fn is 0 / 100 / the same expression x, and x is only returned on paths whose
+        facts bound it: x > 0 (or >= 0) and x < 100 (or <= 100) - a clamp written with comparisons"""
+        from ..yieldpaths import Unsupported, paths_of, resolve
+        try:
+            P = [resolve(p_) for p_ in paths_of(fn.node)]
+        except Unsupported:
+            return None
+        xs = set()
+        for p_ in P:
+            rets = [e for e in p_ if e[0] == "return"]
+            if len(rets) != 1 or rets[0][1] is None:
+                return None
+            try:
+                v = _Num().visit(ast.parse(rets[0][1], mode="eval").body)
+            except SyntaxError:
+                return None
+            facts = {}
+            for e in p_:
+                if e[0] == "cond":
+                    try:
+                        facts[norm(_Num().visit(ast.parse(e[1], mode="eval").body))] = e[2]
+                    except SyntaxError:
+                        pass
+            if isinstance(v, ast.Constant):
+                if not (isinstance(v.value, float) and 0.0 <= v.value <= 100.0):
+                    return None
+                continue
+            x = norm(v)
+            if "self.total" not in x:
+                continue  # e.g. the `return 0.0`-like early exits already handled; other expressions are not the ratio
+            lower = facts.get(f"{x} > 0.0") is True or facts.get(f"{x} < 0.0") is False or facts.get(f"0.0 < {x}") is True
+            upper = facts.get(f"{x} < 100.0") is True or facts.get(f"{x} > 100.0") is False or facts.get(f"100.0 > {x}") is True
+            if not (lower and upper):
+                return None
+            xs.add(x)
+        if len(xs) != 1:
+            return None
+        return 0.0, 100.0, ast.parse(next(iter(xs)), mode="eval").body
+
     parts = []
     for fn in (a, b):
         e = shape(fn)
         cp = clamp_parts(e) if e is not None else None
+        if cp is None:
+            cp = clamp_by_paths(fn)
         ctx.check(cp is not None and cp[0] == 0.0 and cp[1] == 100.0, fn.fq, norm(e) if e is not None else "?", fn.where,
                   "the result is clamped to 0..100", f"{fn.fq} does not clamp its result to 0..100 with min/max (found `{short(e) if e is not None else '?'}`)")
         if cp is None:
